@@ -569,7 +569,7 @@ func c10(c *rig.Ctx) {
 	}
 	var batches []batchT
 	for i := 0; i < len(cases); {
-		size := 300
+		size := 600
 		if heavy[cases[i].Fixture] {
 			size = 25
 		}
